@@ -127,50 +127,95 @@ def r2_typed_parse(ctx):
     ctx.floor('C15.R2', 'typed value deserializers checked', n, 14)
 
 
+def _mime_test(body, defs, t):
+    """which component of the parsed Mime a comparison call tests: 'T' (type_), 'U' (subtype), 'S' (suffix) or None"""
+    c = callee(t) or ''
+    if not t['args']:
+        return None
+    pl = op_place(t['args'][0])
+    if pl is None:
+        return None
+    names = {x for x, _, _ in slice_calls(backward_slice(body, pl['l'], defs)[0])}
+    if c.startswith('core::cmp::PartialEq::eq') or c.startswith('core::cmp::PartialEq::ne'):
+        if 'mime::Mime::type_' in names:
+            return 'T'
+        if 'mime::Mime::subtype' in names:
+            return 'U'
+        if 'mime::Mime::suffix' in names:
+            return 'S'
+    if c in ('core::option::Option::is_some_and', 'core::option::Option::map_or', 'core::option::Option::is_none_or') and 'mime::Mime::suffix' in names:
+        return 'S'
+    return None
+
+
 def _ct_rule(ctx, fn, want_subtypes, allow_suffix):
+    from ..absint_std import StdSem, TagInterp
+    from ..inline import inlined, closures_of
     b = ctx.need('C15.R3', fn, ctx.fb.body(CR, fn))
     if b is None:
         return
-    defs = Defs(b)
-
-    def from_call(t, name):
-        pl = op_place(t['args'][0]) if t['args'] else None
-        if pl is None:
-            return False
-        sl, _ = backward_slice(b, pl['l'], defs)
-        return name in {c for c, _, _ in slice_calls(sl)}
-    named = {
-        'T': lambda t: (callee(t) or '').startswith('core::cmp::PartialEq::eq') and from_call(t, 'mime::Mime::type_'),
-        'U': lambda t: (callee(t) or '').startswith('core::cmp::PartialEq::eq') and from_call(t, 'mime::Mime::subtype'),
-        'S': lambda t: callee(t) == 'core::option::Option::is_some_and' and from_call(t, 'mime::Mime::suffix'),
-    }
-    oks = [bb for bb, j, st in b.all_assigns() if st['lhs'] == {'l': 0} and st['rv']['k'] == 'agg' and st['rv'].get('var') == 'Ok']
-    if not ctx.need('C15.R3', 'Ok(()) result in ' + fn, oks):
-        return
-    states, sym, evals = states_at(b, oks, named)
     short = fn.split('::')[-1]
-    bad = []
-    for st in states[oks[0]]:
-        t_, u_, s_ = st.get('T'), st.get('U'), st.get('S')
-        good = t_ is True and (u_ is True or (allow_suffix and s_ is True))
-        if not good:
-            bad.append(st)
-    ctx.ob('C15.R3', 'gate|%s' % short, bool(states[oks[0]]) and not bad, b.loc(oks[0]),
-           '%d abstract path state(s) reach Ok(()); all have type==application and (subtype matches%s): %s%s'
-           % (len(states[oks[0]]), ' or +suffix matches' if allow_suffix else '', not bad, '' if not bad else ' — offending states %s' % bad))
-    # the constants compared
+    module = fn.rsplit('::', 1)[0] + '::'
+    dcache = {}
+
+    class Sem(StdSem):
+        crate = CR
+
+        def __init__(self, fb, vals):
+            super().__init__(fb)
+            self.vals, self.tests = vals, set()
+
+        def domain_call(self, interp, path, body, bb, term, short_):
+            if body.id not in dcache:
+                dcache[body.id] = Defs(body)
+            k = _mime_test(body, dcache[body.id], term)
+            d = term.get('dest')
+            if k is None or d is None or d.get('p'):
+                return None
+            dk = (body.id, d['l'])
+            self.tests.add(k)
+            path.alias.pop(dk, None)
+            path.tags.pop(dk, None)
+            v = self.vals[k]
+            path.memo[dk] = (not v) if short_.startswith('core::cmp::PartialEq::ne') else v
+            return [('next', path)]
+
+        def descend_into(self, short_):
+            return short_.startswith(module)
+
+    ok_under, tests, n = [], set(), 0
+    for T in (True, False):
+        for U in (True, False):
+            for S in (True, False):
+                sem = Sem(ctx.fb, {'T': T, 'U': U, 'S': S})
+                outs = TagInterp(sem).run(b, {})
+                n += len(outs)
+                tests |= sem.tests
+                if any(oc[0] == 'return' and oc[1].tags.get((b.id, 0)) != 'res:Err' for oc in outs):
+                    ok_under.append({'T': T, 'U': U, 'S': S})
+    bad = [v for v in ok_under if not (v['T'] and (v['U'] or (allow_suffix and v['S'])))]
+    need = {'T', 'U'} | ({'S'} if allow_suffix else set())
+    ctx.ob('C15.R3', 'gate|%s' % short, bool(ok_under) and not bad and need <= tests, b.loc(),
+           '%s interpreted (%d paths) for every outcome of the comparisons on the parsed Mime (tested: %s): a non-Err result is produced under %d '
+           'valuation(s), all with type==application and (subtype matches%s): %s%s'
+           % (short, n, sorted(tests), len(ok_under), ' or +suffix matches' if allow_suffix else '', not bad, '' if not bad else ' — offending valuations %s' % bad))
+    # the constants compared (in the function, its private helpers inlined, and their closures)
+    ib = inlined(ctx.fb, b)
+    parts = [ib] + closures_of(ctx.fb, ib)
     for name, want in (('T', {'application', 'const:mime::APPLICATION'}), ('U', want_subtypes)):
-        for bb in evals.get(name, []):
-            t = b.term(bb)
-            pl = op_place(t['args'][1])
-            sl, _ = backward_slice(b, pl['l'], defs) if pl else ([], set())
-            strs = set(slice_strs(ctx.fb, b, sl))
-            ctx.ob('C15.R3', 'constant|%s|%s' % (short, name), bool(strs & want), b.loc(bb, t),
-                   'compared against %s (documented: one of %s)' % (sorted(strs), sorted(want)))
+        for x in parts:
+            defs = Defs(x)
+            for bb, t in x.calls():
+                if _mime_test(x, defs, t) != name or len(t['args']) < 2:
+                    continue
+                pl = op_place(t['args'][1])
+                sl, _ = backward_slice(x, pl['l'], defs) if pl else ([], set())
+                strs = set(slice_strs(ctx.fb, x, sl))
+                ctx.ob('C15.R3', 'constant|%s|%s' % (short, name), bool(strs & want), x.loc(bb, t),
+                       'compared against %s (documented: one of %s)' % (sorted(strs), sorted(want)))
     if allow_suffix:
-        cl = [x for x in ctx.fb.bodies_of_item(CR, fn) if x is not b and not x.is_promoted]
         strs = set()
-        for x in cl:
+        for x in parts[1:]:
             for bb, t in x.calls():
                 for a in t['args']:
                     pl = op_place(a)
@@ -180,23 +225,62 @@ def _ct_rule(ctx, fn, want_subtypes, allow_suffix):
         ctx.ob('C15.R3', 'constant|%s|S' % short, bool(strs & {'json', 'const:mime::JSON'}), b.loc(), 'suffix compared against %s' % sorted(strs))
 
 
+DESER = ('serde_json::', 'serde_path_to_error::', 'serde_html_form::', 'serde_urlencoded::')
+
+
+def _gate_cases(ctx, b, gate):
+    """P11: the extractor interpreted for each outcome of the content-type gate -> {outcome: a deserialisation call is reached}"""
+    from ..absint_std import StdSem, TagInterp
+    module = gate.rsplit('::', 1)[0] + '::'
+
+    class Sem(StdSem):
+        crate = CR
+
+        def __init__(self, fb, tag):
+            super().__init__(fb)
+            self.tag, self.gates, self.deser = tag, 0, False
+
+        def domain_call(self, interp, path, body, bb, term, short_):
+            d = term.get('dest')
+            if short_ == gate and d is not None and not d.get('p'):
+                dk = (body.id, d['l'])
+                self.gates += 1
+                path.alias.pop(dk, None)
+                path.memo.pop(dk, None)
+                path.tags[dk] = self.tag
+                return [('next', path)]
+            if short_.startswith(DESER):
+                self.deser = True
+            return None
+
+        def descend_into(self, short_):
+            return short_.startswith(module) and short_ != gate
+
+    out, gates = {}, 0
+    for name, tag in (('Ok', 'res:Ok'), ('Err', 'res:Err')):
+        sem = Sem(ctx.fb, tag)
+        TagInterp(sem).run(b, {})
+        out[name] = sem.deser
+        gates += sem.gates
+    return out, gates
+
+
 def r3_content_type(ctx):
-    ctx.rule('C15.R3', 'P10/P1: check_json_content_type returns Ok only on paths with type == "application" and (subtype == "json" or suffix == '
-             '"json"); check_urlencoded_content_type only with type == application and subtype == x-www-form-urlencoded; in '
-             'JsonBody::extract / UrlEncodedBody::extract the gate call (with `?`) dominates the deserialisation call.')
+    ctx.rule('C15.R3', 'P11 case evaluation: check_json_content_type (private helpers entered) produces a non-Err result only under valuations with '
+             'type == "application" and (subtype == "json" or suffix == "json"); check_urlencoded_content_type only with type == application and '
+             'subtype == x-www-form-urlencoded; the constants compared are the documented ones; JsonBody::extract / UrlEncodedBody::extract, '
+             'interpreted for each outcome of the gate, reach a deserialisation call (serde_json / serde_path_to_error / serde_html_form, '
+             'directly or in a private helper) when the gate says Ok and never when it says Err.')
     _ct_rule(ctx, RQ + 'body::json::check_json_content_type', {'json', 'const:mime::JSON'}, True)
     _ct_rule(ctx, RQ + 'body::url_encoded::check_urlencoded_content_type', {'const:mime::WWW_FORM_URLENCODED', 'x-www-form-urlencoded'}, False)
-    for item, gate, deser in ((RQ + 'body::json::JsonBody::extract', RQ + 'body::json::check_json_content_type', ('serde_path_to_error::de::deserialize', 'serde_json::de::from_slice')),
-                              (RQ + 'body::url_encoded::UrlEncodedBody::extract', RQ + 'body::url_encoded::check_urlencoded_content_type', (RQ + 'body::url_encoded::parse',))):
+    for item, gate in ((RQ + 'body::json::JsonBody::extract', RQ + 'body::json::check_json_content_type'),
+                       (RQ + 'body::url_encoded::UrlEncodedBody::extract', RQ + 'body::url_encoded::check_urlencoded_content_type')):
         b = ctx.need('C15.R3', item, ctx.fb.body(CR, item))
         if b is None:
             continue
-        g = [bb for bb, t in b.calls() if callee(t) == gate]
-        d = [bb for bb, t in b.calls() if callee(t) in deser]
-        tries = [bb for bb, t in b.calls() if callee(t) == 'core::ops::try_trait::Try::branch']
-        ok = bool(g) and bool(d) and all(b.dominates(g[0], x) for x in d) and any(b.dominates(g[0], tr) and all(b.dominates(tr, x) for x in d) for tr in tries)
-        ctx.ob('C15.R3', 'gate-dominates-deserialisation|%s' % item.split('::')[-2], ok, b.loc(g[0]) if g else b.loc(),
-               'content-type gate (blocks %s) with `?` dominates deserialisation (blocks %s)' % (g, d))
+        got, gates = _gate_cases(ctx, b, gate)
+        ctx.ob('C15.R3', 'gate-dominates-deserialisation|%s' % item.split('::')[-2], gates > 0 and got == {'Ok': True, 'Err': False}, b.loc(),
+               'deserialisation reached when the content-type gate returns Ok / Err: %s (gate evaluated %d time(s))' % (got, gates))
 
 
 PANICS = ('core::panicking::', 'core::option::unwrap_failed', 'core::option::expect_failed', 'core::result::unwrap_failed')
@@ -251,10 +335,12 @@ def r5_value_untouched(ctx):
     ctx.rule('C15.R5', 'P7 provenance: in the path deserializer every value handed to str::parse or to a string/bytes visitor method derives from the '
              'decoded parameter through value-preserving accessors only (deref/as_ref/as_bytes/clone/to_owned/..): no trimming, case folding, '
              'replacing or splitting between what the client encoded and what the field receives.')
+    from ..inline import inlined
     n = 0
     for b in ctx.fb.bodies(CR):
         if b.is_promoted or 'request::path::deserializer' not in b.nid:
             continue
+        b = inlined(ctx.fb, b)
         defs = Defs(b)
         for bb, t in b.calls():
             c = callee(t) or ''
@@ -268,7 +354,9 @@ def r5_value_untouched(ctx):
             if len(t['args']) <= i or op_place(t['args'][i]) is None:
                 continue
             n += 1
-            sl, _ = backward_slice(b, op_place(t['args'][i])['l'], defs)
+            # (the error side of a parse — an `Err(..)` built by hand — is not what the visitor receives)
+            sl, _ = backward_slice(b, op_place(t['args'][i])['l'], defs, stop=lambda nd: 'rv' in nd and nd['rv']['k'] == 'agg' and nd['rv'].get('var') == 'Err'
+                                   and strip_generics(nd['rv'].get('adt', '')) == 'core::result::Result')
             other = sorted({x for x, _, _ in slice_calls(sl) if x.split('::')[-1] not in PURE_ACCESS})
             ctx.ob('C15.R5', 'untouched|%s|%s' % (b.nid.split('::')[-1].rstrip('>'), c.split('::')[-1]), not other, b.loc(bb, t),
                    'value handed to %s derives from the decoded parameter through %s' % (c.split('::')[-1], other and ('a REWRITING call: %s' % other) or 'accessors only'))
@@ -289,10 +377,12 @@ def r5_value_untouched(ctx):
     # a hand-driven serde_json::Deserializer must be asked whether anything is left after the value
     ext = [b for b in ctx.fb.bodies(CR) if not b.is_promoted and b.nid.endswith('request::body::json::JsonBody::extract')]
     if ctx.need('C15.R5', 'JsonBody::extract', ext):
-        b = ext[0]
+        b = inlined(ctx.fb, ext[0], keep={RQ + 'body::json::check_json_content_type'})
         de = [bb for bb, t in b.calls() if (callee(t) or '').startswith('serde_path_to_error::') and (callee(t) or '').endswith('::deserialize') or (callee(t) or '').endswith('Deserialize::deserialize')]
         end = [bb for bb, t in b.calls() if (callee(t) or '').startswith('serde_json::de::Deserializer') and (callee(t) or '').endswith('::end')]
-        oks = [bb for bb, j, st in b.all_assigns() if st['lhs'] == {'l': 0} and st['rv']['k'] == 'agg' and st['rv'].get('var') == 'Ok']
+        # every Ok(..) built after the value was deserialized (the function's result, or that of the private helper it was moved into)
+        oks = [bb for bb, j, st in b.all_assigns() if st['rv']['k'] == 'agg' and st['rv'].get('var') == 'Ok'
+               and strip_generics(st['rv'].get('adt', '')) == 'core::result::Result' and de and bb in b.reachable(b.succ(de[0]))]
         ok = bool(de) and bool(end) and bool(oks) and all(b.dominates(end[0], o) for o in oks) and b.dominates(de[0], end[0])
         ctx.ob('C15.R5', 'json-document-consumed-entirely', ok, b.loc(de[0]) if de else b.loc(),
                'Deserializer::end() is called after the value was deserialized and dominates the Ok result: %s (otherwise `{..} trailing` is accepted as if it were `{..}`)' % ok)
